@@ -279,6 +279,8 @@ def all_problems(f):
         cats.add(f.bad[0])
     if (f.type in NEEDS_STREAM and f.sid == 0) or (f.type in NEEDS_ZERO and f.sid != 0):
         cats.add('proto')
+    for cat, _ in f.problems:
+        cats.add(cat)
     return cats
 
 
